@@ -119,6 +119,14 @@ theorem step_push0_agrees (s : IState) (hcode : s.code[s.pc]? = some 0x5f) (hwf 
 theorem step_jumpdest_agrees (s : IState) (hcode : s.code[s.pc]? = some 0x5b) (hwf : WF s) :
     step s = .pure (jumpdestRule s) := Proofs.EvmStep.step_jumpdest s hcode hwf.gas
 
+/-- JUMP: the destination must be marked by the jump analysis (C04: exactly the JUMPDESTs at instruction boundaries) -/
+theorem step_jump_agrees (s : IState) (hcode : s.code[s.pc]? = some 0x56) (hwf : WF s) :
+    step s = .pure (jumpRule s) := Proofs.EvmStep.step_jump s hcode hwf.gas
+
+/-- JUMPI -/
+theorem step_jumpi_agrees (s : IState) (hcode : s.code[s.pc]? = some 0x57) (hwf : WF s) :
+    step s = .pure (jumpiRule s) := Proofs.EvmStep.step_jumpi s hcode hwf.gas
+
 /-- DUP1 … DUP16 -/
 theorem step_dup_agrees (s : IState) (n : Fin 16) (hcode : s.code[s.pc]? = some (0x80 + n.val)) (hwf : WF s) :
     step s = .pure (dupRule (n.val + 1) s) :=
